@@ -168,10 +168,14 @@ impl<'a, N: Normalizer> XmlSerializer<'a, N> {
                 }
             }
             Text(text) => {
-                // a text node can be a child of an element or document
-                let parent = self.xot.parent(node).unwrap();
+                // a text node can be a child of an element or document, or be
+                // unattached
+                let parent_element = self
+                    .xot
+                    .parent(node)
+                    .and_then(|parent| self.xot.element(parent));
 
-                let is_cdata_element = if let Some(element) = self.xot.element(parent) {
+                let is_cdata_element = if let Some(element) = parent_element {
                     self.parameters
                         .cdata_section_elements
                         .contains(&element.name())
